@@ -962,6 +962,9 @@ func (e *Exec) execBlock(st *State, b *ssa.BasicBlock, prev *ssa.BasicBlock) {
 		if st.dead {
 			return
 		}
+		if len(fr.lazy) > 0 {
+			fr.resolveLazy()
+		}
 		switch x := in.(type) {
 		case *ssa.Phi:
 			if isHeader {
@@ -1183,4 +1186,37 @@ func identName(d *ssa.DebugRef) string {
 		}
 	}
 	return ""
+}
+
+// singleValueOf: when every non-defining reference to the variable a
+// defining DebugRef describes names one and the same SSA value, that value.
+func singleValueOf(d *ssa.DebugRef) ssa.Value {
+	obj := d.Object()
+	id, ok := d.Expr.(*ast.Ident)
+	if !ok || obj == nil || id.Pos() != obj.Pos() {
+		return nil
+	}
+	if _, isConst := d.X.(*ssa.Const); !isConst || d.IsAddr {
+		return nil
+	}
+	var single ssa.Value
+	for _, b := range d.Parent().Blocks {
+		for _, in := range b.Instrs {
+			o, ok := in.(*ssa.DebugRef)
+			if !ok || o == d || o.Object() != obj {
+				continue
+			}
+			if o.IsAddr {
+				return nil
+			}
+			if single != nil && o.X != single {
+				return nil
+			}
+			single = o.X
+		}
+	}
+	if _, isConst := single.(*ssa.Const); isConst {
+		return nil
+	}
+	return single
 }
